@@ -191,6 +191,22 @@ EntityUID RSCore::InsertCopy(const ConceptRecord& cst) {
 VectorOfEntities RSCore::InsertCopy(const VectorOfEntities& input, const RSCore& source) {
   VectorOfEntities result{};
   StrSubstitutes replMap{};
+  // Note: a new alias should not give a meaning to a mention that has none - neither here nor in the copied group
+  auto unresolved = UnresolvedGlobals(schema);
+  std::unordered_set<std::string> incoming{};
+  for (const auto uid : input) {
+    incoming.emplace(source.GetRS(uid).alias);
+  }
+  for (const auto uid : input) {
+    for (const auto& name : rslang::ExtractUGlobals(source.GetRS(uid).definition)) {
+      if (!incoming.contains(name) && !schema.FindAlias(name).has_value()) {
+        unresolved.emplace(name);
+      }
+    }
+  }
+  for (const auto& name : unresolved) {
+    identifiers.ReserveAlias(name);
+  }
   for (const auto uid : input) {
     const auto newID = identifiers.RegisterID(uid, source.GetRS(uid).alias, source.GetRS(uid).type);
     RSConcept newRS = source.GetRS(uid);
@@ -208,6 +224,9 @@ VectorOfEntities RSCore::InsertCopy(const VectorOfEntities& input, const RSCore&
     if (source.GetRS(uid).alias != newID.alias) {
       replMap.insert({ source.GetRS(uid).alias, newID.alias });
     }
+  }
+  for (const auto& name : unresolved) {
+    identifiers.FreeAlias(name);
   }
   if (!std::empty(replMap)) {
     const auto translator = CreateTranslator(replMap);
